@@ -185,6 +185,7 @@ class SymEx:
         self.roundings = 0
         self.reads_undef = []
         self.intermediates = []
+        self.float_to_int = []     # floating values converted to an integer type (truncation)
         self.narrowings = []      # (to, from) of every precision-losing cast of a non-constant value
         self.narrow_bad = []      # those that narrow below the result type of the function under contract
         self.pc = []             # path condition stack (bool terms)
@@ -569,7 +570,21 @@ class SymEx:
                 return a
             if t[0] in ('i', 'enum'):
                 if e[2][1][0] == 'f':
-                    raise Unsupported('float to integer cast in REAL mode')
+                    a = self.tonum(a)
+                    if is_num(a):
+                        import math
+                        return num(Fraction(math.trunc(a[1])))
+                    # conversion of a floating value to an integer type: truncation toward zero (range assumed to fit)
+                    if not hasattr(self, '_trunc_cache'):
+                        self._trunc_cache = {}
+                    if a in self._trunc_cache:
+                        return self._trunc_cache[a]
+                    t_ = self.fresh('trunc')
+                    self.assumes.append(lor(land(cmp('>=', a, num(0)), land(cmp('<=', t_, a), cmp('<', mk('-', a, t_), num(1)))),
+                                            land(cmp('<', a, num(0)), land(cmp('>=', t_, a), cmp('<', mk('-', t_, a), num(1))))))
+                    self.float_to_int.append(e[2][1][1] if len(e[2][1]) > 1 else 'float')
+                    self._trunc_cache[a] = t_
+                    return t_
                 return self.tonum(a)
             if t[0] == 'bool':
                 return self.tobool(a)
@@ -707,6 +722,14 @@ class SymEx:
             if self.mode == 'NOISY':
                 return self.tonum(args[0])        # the literal the code uses, rounded to its type
             return self.pi()
+        if name in ('isnan', 'isinf'):
+            return FALSE          # reals: every value is a finite number
+        if name == 'isfinite':
+            return TRUE
+        if name == 'hypot':
+            a_, b_ = self.tonum(args[0]), self.tonum(args[1])
+            args = [mk('+', mk('*', a_, a_), mk('*', b_, b_))]
+            name = 'sqrt'
         if name == 'sqrt':
             x = self.tonum(args[0])
             if is_num(x):
